@@ -229,6 +229,7 @@ package plugin
 //@   requires wfstep(r) && nolocks()
 //
 //@ func (*runningStep).runStage
+//@   site call completeStep#1 assert [the-output-a-plugin-reports-is-one-its-step-declares] indom(stepOutputsOf(r.stepSchema), result.OutputID)
 //@   site call time.After#1 assert [a-cancelled-step-is-waited-for-exactly-the-closure-timeout-in-milliseconds] callarg(time.After, 1, 0) == time.Duration(forceCloseTimeoutMS * 1000000)
 //@   site call transitionStageWithOutput#1 assert [started-output-is-the-declared-empty-object] typeis(startedOutput, map[any]any) && (forall k any :: !indom(startedOutput.(map[any]any), k))
 //@   opt goroutine run
